@@ -52,19 +52,28 @@ THEOREMS = [
     'C11.normalized_idem_orthorhombic', 'C11.normalized_idem_isotropic', 'C11.is_normal_of_normalized',
     'C11.normalized_idem_monoclinic', 'C11.sijkl_setter_roundtrip', 'C11.object_step', 'C11.object_reads_pure',
     'C11.object_read_order', 'C11.object_set_overwrites', 'C11.object_refused_set', 'C11.transform_linear',
-    'C11.transform_unit_independent',
+    'C11.transform_unit_independent', 'C11.setCij_idem', 'C11.setCij_smul', 'C11.setCijkl_of_symm',
+    'C11.transform_homogeneous', 'C11.normalized_setter_idem_triclinic', 'C11.normalized_setter_idem_cubic',
+    'C11.normalized_setter_idem_tetragonal', 'C11.normalized_setter_idem_orthorhombic',
+    'C11.normalized_setter_idem_monoclinic',
 ]
 PARTIAL = {
     'transform_with_cleanups': 'transform_id/comp/inv, energy and moduli invariance and system_invariant_* are proved for '
     'the exact tensor rotation `rot` (= the generated einsums); `transform_is_rot` states transform = axes_check, rot, '
     'relative clean-up (|C/Cmax| < tol), Cijkl setter. With the 1e-8/1e-9 clean-ups the group laws hold on the '
     'implementation only up to those thresholds: checked by the tie and the oracle (atol 2.5e-8*max), not a theorem',
-    'normalized_with_setter_cleanup': 'normalized_idem_* and is_normal_of_normalized are about the generated formulas, '
-    'before the zeroing of relatively tiny entries by the Cij setter',
-    'unit_independence_of_setters': 'transform_unit_independent covers rotation + relative clean-up; the setters that follow '
-    '(Cijkl, Cij) compare with ABSOLUTE atol (numpy default 1e-8 / 1e-9) and are therefore not homogeneous in their '
-    'refusals: exactly symmetric tensors pass at every scale (setter_roundtrips, sijkl_setter_roundtrip), the float '
-    'behaviour at 2^-40..2^40 is checked by the scale sweeps of tie and oracle',
+    'normalized_with_setter_cleanup': 'through the Cij setter (zeroing of entries <= 1e-9*max included) normalisation is '
+    'proved idempotent for triclinic, monoclinic, orthorhombic, tetragonal and cubic (normalized_setter_idem_*: every '
+    'template entry is +- one constant, so equal entries are zeroed together).  For hexagonal / rhombohedral '
+    '(C66 = (C11-C12)/2 is an entry of its own) and isotropic (C12 = K - 2mu/3) one entry can fall below the threshold '
+    'while the constants it derives from do not; the second normalisation then moves constants by at most that '
+    'threshold: normalized_idem_{hexagonal,rhombohedral,isotropic} and is_normal_of_normalized are about the generated '
+    'formulas before the zeroing, the oracle allows 2e-9*max',
+    'unit_independence_of_setters': 'transform_homogeneous: on exactly symmetric tensors the whole of transform (axes_check, '
+    'rotation, relative clean-up, Cijkl and Cij setters) commutes with a positive rescaling, refusals included.  On the '
+    'implementation the rotated tensor is symmetric only to rounding and the Cijkl / Cij setters compare with ABSOLUTE '
+    'atol (numpy default 1e-8 / 1e-9), so what they would refuse is not scale free: the float behaviour at '
+    '2^-480..2^480 is checked by the scale sweeps of tie and oracle',
     'object_model': 'object_* theorems are about the Lean object model (state = one matrix; reads are functions of it); '
     'that the class has no other state (caches, aliased arrays) is what the `seq` correspondence and the read-order / '
     'set-sequence oracle check on every run, not a theorem about the Python object',
@@ -842,6 +851,8 @@ class SymExec:
                     if u == 'self.Sij':
                         self.uses_s = True
                     return
+                if tg.id == 'kwargs' and u == '{key: float(value) for key, value in kwargs.items()}':
+                    return      # conversion of the given numbers to python floats: the identity on the model's scalars
                 if u == '{}':
                     self.dicts = getattr(self, 'dicts', {})
                     self.dicts[tg.id] = {}
@@ -1570,8 +1581,13 @@ def correspond(ctx):
         elif mode == 5:    # left-handed / non-orthogonal
             R0, _ = _quat_rot(rng)
             R = R0.copy()
-            if rng.random() < 0.5:
-                R[2] = -R[2]
+            flip = rng.randrange(3)
+            if flip == 0:
+                k_ = rng.randrange(3)
+                R[k_] = -R[k_]                    # improper: any one row negated
+            elif flip == 1:
+                k_ = rng.randrange(3)
+                R[[k_, (k_ + 1) % 3]] = R[[(k_ + 1) % 3, k_]]        # improper: two rows exchanged
             else:
                 R[0] = R[0] + rng.choice([1e-9, 1e-7, 1e-3]) * R[1]
         else:              # composition of two rotations, model fed with its own intermediate result
@@ -1601,9 +1617,9 @@ def correspond(ctx):
                 r, e = _call(lambda: ect.transform(Rp).Cij)
                 B.add('transform:threshold', 'transform ' + cm.frs(Ct) + ' ' + cm.frs(Rp) + ' 1 1 1', r, e, _exact,
                       {'Cij': Ct.tolist(), 'axes': Rp.tolist()})
-        if it % 10 == 0:   # explicit tol
-            tol = rng.choice([1e-3, 0.25, 1e-12])
-            r, e = _call(lambda: ec.transform(R, tol=tol).Cij)
+        if it % 5 == 0:    # explicit tol: keyword / positional, zero included
+            tol = rng.choice([1e-3, 0.25, 1e-12, 0.0, 0])
+            r, e = _call(lambda: (ec.transform(R, tol=tol) if it % 10 else ec.transform(R, tol)).Cij)
             B.add('transform:tol', line + ' ' + cm.fr(tol), r, e, _Cmp(1e-9, thresh=max(tol, 1e-8)),
                   {**info, 'tol': tol})
     B.run()
@@ -1620,6 +1636,8 @@ def correspond(ctx):
                 vals['C66'] = c66 + rng.choice([0.0, 0.0, 1e-7 * abs(c66), 1e-3, 0.5])
             if rep % 4 == 3 and info['status'] == 'ok':
                 vals = {k: -abs(v) for k, v in vals.items()}       # Cij setter must refuse (max <= 0)
+            if rep % 4 == 1:                                       # optional / coupling constants given as zero
+                vals = {k: (0.0 if (k in CIJ_KEYS and k[1] != k[2] and int(k[2]) > 3) else v) for k, v in vals.items()}
             r, e = _call(lambda: EC(**vals).Cij)
             line = _ctor_line(ctx, ks, vals)
             B.add('ctor:' + (info['route'][-1] if info['status'] == 'ok' else 'raises'), line, r, e,
@@ -1656,7 +1674,8 @@ def correspond(ctx):
                   _Cmp(1e-11 * (cond if sysname == 'isotropic' else 1.0), thresh=1e-9), info)
             if sysname in SYSTEMS:
                 for rt, at in ((1e-4, 1e-4), (0.5, 0.25)):
-                    r, e = _call(lambda: [1.0 if ec.is_normal(sysname, atol=at, rtol=rt) else 0.0])
+                    r, e = _call(lambda: [1.0 if (ec.is_normal(sysname, atol=at, rtol=rt) if it % 2 else
+                                                  ec.is_normal(sysname, at, rt)) else 0.0])
                     B.add('is_normal', f'isnormal {sysname} {line} {cm.fr(rt)} {cm.fr(at)}', r, e, _exact, info,
                           strip_ok=False)
         for which in ('bulk', 'shear'):
@@ -1671,6 +1690,8 @@ def correspond(ctx):
     kinds = ['isotropic', 'cubic', 'hexagonal', 'tetragonal', 'rhombohedral', 'orthorhombic']
     for it in range(ctx.n(60, 700)):
         ex = SCALE_EXPS[(it // 2) % len(SCALE_EXPS)] if it % 2 == 0 else rng.choice([0, 0, 7, -7])
+        if it % 10 == 9:
+            ex = rng.choice(BIG_EXPS)
         if it % 3 == 0:
             C, what = _spd_dyadic(rng, 2), 'spd'
         elif it % 3 == 1 and (it // 3) % 2 == 0:
@@ -2117,6 +2138,8 @@ def _system_consts(rng, sysname):
 # clause is evaluated at a tolerance relative to the tensor's own magnitude (`_rot_tol(mx)`), never absolute.
 SCALE_EXPS = [-40, -36, -30, -27, -23, -20, -17, -14, -13, -12, -10, -7, -3, 3, 7, 10, 14, 17, 20, 27, 33, 37, 40]
 ANISO = [1e-9, 1e-8, 1e-7, 1e-6, 1e-5, 3e-5, 1e-4, 3e-4, 1e-3, 1e-2]
+# far out: up to where the squares formed by the modulus-pair formulas (E**2, c11**2) are still normal doubles
+BIG_EXPS = [-480, -300, -200, -100, 100, 200, 300, 480]
 
 
 def _template(kind, v):
@@ -2205,7 +2228,8 @@ def _spd_cond(rng, cond):
 
 
 # ---- one object, many reads: order independence, purity, no aliasing, setters overwrite -------------------
-READ_NAMES = ['Cij', 'Sij', 'Cij9', 'Cijkl', 'Sijkl', 'bulk', 'shear', 'normalized_as', 'is_normal', 'transform', 'str']
+READ_NAMES = ['Cij', 'Sij', 'Cij9', 'Cijkl', 'Sijkl', 'bulk', 'shear', 'normalized_as', 'is_normal', 'transform', 'str',
+              'model']
 _READ_AXES = [[2.0, 1.0, 2.0], [-2.0, 2.0, 1.0], [-1.0, -2.0, 2.0]]      # a proper rotation with rows of length 3
 
 
@@ -2233,6 +2257,9 @@ def _read(ec, name):
             return out
         if name == 'str':
             return np.array([float(len(str(ec)))])
+        if name == 'model':
+            return np.concatenate([np.array(ec.model(**kw)['elastic-constants']['Cij']['value'], dtype=float)
+                                   for kw in ({}, {'unit': 'GPa'}, {'unit': 'MPa', 'crystal_system': 'cubic'})])
         raise KeyError(name)
     r, e = _call(go)
     return r if e is None else e
@@ -2278,7 +2305,7 @@ def _check_read_order(ctx, make, orders, info, tag, scribble=True):
     return ref
 
 
-SETTER_KINDS = ['Cij', 'Sij', 'Cij9', 'Cijkl', 'Sijkl', 'named', 'init']
+SETTER_KINDS = ['Cij', 'Sij', 'Cij9', 'Cijkl', 'Sijkl', 'model', 'named', 'init']
 
 
 def _apply_setter(ec, kind, donor, named=None, reuse=False):
@@ -2287,6 +2314,9 @@ def _apply_setter(ec, kind, donor, named=None, reuse=False):
     if kind == 'named':
         meth, kw = named
         getattr(ec, meth)(**kw)
+        return
+    if kind == 'model':          # reload into the same object from a data model
+        ec.model(model=donor.model(unit=None))
         return
     arr = donor.Cij if kind == 'init' else getattr(donor, kind)
     if kind == 'init':
@@ -2304,7 +2334,7 @@ def _check_set_sequence(ctx, rng, C1, C2, info, tag, named=None, fixed=None):
     np = _np()
     import atomman as am
     EC = am.ElasticConstants
-    kind = rng.choice(SETTER_KINDS if named else SETTER_KINDS[:5] + ['init'])
+    kind = rng.choice(SETTER_KINDS if named else SETTER_KINDS[:6] + ['init'])
     pre = rng.sample(READ_NAMES, rng.randint(0, 4))
     post = rng.sample(READ_NAMES, len(READ_NAMES))
     if fixed is not None:
@@ -2376,10 +2406,20 @@ def search(ctx, broken):
             _check_rotation_clauses(ctx, ec, _rand_rotation(rng), _rand_rotation(rng), _rand_strain(rng),
                                     {'Cij': C0.tolist()}, 'SPD with small couplings')
     # ---- rotations ---------------------------------------------------------------------------
+    sp = _signed_perms()
     for it in range(ctx.n(40, 400) * big):
         C = _spd_float(rng, rng.choice([1.0, 160.2176621])) if it % 2 else _spd_dyadic(rng, 3)
-        _check_rotation_clauses(ctx, _new(ctx, {'Cij': C.tolist()}, 'random SPD', Cij=C.copy()), _rand_rotation(rng),
-                                _rand_rotation(rng), _rand_strain(rng), {'Cij': C.tolist()}, 'random SPD')
+        # general rotations; the 24 axis permutations / two-, three- and four-fold axes of the cube (a general tensor
+        # is NOT invariant under them); rotations a small angle away from those
+        if it % 5 == 3:
+            R1, R2, what = sp[rng.randrange(len(sp))], sp[rng.randrange(len(sp))], 'random SPD, cube rotation'
+        elif it % 5 == 4:
+            R1 = _small_rotation(rng, 10.0 ** rng.uniform(-6, -2)) @ sp[rng.randrange(len(sp))]
+            R2, what = sp[rng.randrange(len(sp))], 'random SPD, near a cube rotation'
+        else:
+            R1, R2, what = _rand_rotation(rng), _rand_rotation(rng), 'random SPD'
+        _check_rotation_clauses(ctx, _new(ctx, {'Cij': C.tolist()}, 'random SPD', Cij=C.copy()), R1, R2,
+                                _rand_strain(rng), {'Cij': C.tolist()}, what)
     # ---- crystal systems: representation clauses + invariance under the generating rotations ---------
     rots = _gen_rotations()
     for it in range(ctx.n(8, 80) * big):
@@ -2476,8 +2516,10 @@ def search(ctx, broken):
     names = ['C11', 'C12', 'C44', 'M', 'lambda', 'mu', 'E', 'nu', 'K']
     same = [{'C11', 'M'}, {'C12', 'lambda'}, {'C44', 'mu'}]
     for it in range(ctx.n(24, 240) * big):
-        if it % 4 == 0:
+        if it % 8 == 0:
             lam, mu = Fraction(0), Fraction(rng.randint(1, 64), 8)            # nu = 0
+        elif it % 8 == 4:
+            lam, mu = Fraction(0), Fraction(rng.uniform(0.01, 300.0))         # nu = 0, moduli that are not dyadic
         elif it % 4 == 1:
             lam, mu = Fraction(rng.randint(1, 64), 8), Fraction(rng.randint(1, 64), 8)
         elif it % 4 == 2:
@@ -2506,6 +2548,7 @@ def search(ctx, broken):
                             {'op': 'iso', 'kwargs': vals, 'lambda': str(lam), 'mu': str(mu)})
     _search_scales(ctx, rng, big)
     _search_objects(ctx, rng, big)
+    _search_audit(ctx, rng, big)
 
 
 def _search_scales(ctx, rng, big):
@@ -2519,6 +2562,7 @@ def _search_scales(ctx, rng, big):
     exps = list(SCALE_EXPS)
     rng.shuffle(exps)
     exps = exps[:ctx.n(12, len(exps))] * (1 if not ctx.thorough else 4)
+    exps += rng.sample(BIG_EXPS, ctx.n(3, len(BIG_EXPS)))
     for n, ex in enumerate(exps * big):
         sc = 2.0 ** ex
         if n % 3 == 0:
@@ -2591,7 +2635,7 @@ def _search_scales(ctx, rng, big):
     for n in range(ctx.n(2, 12) * len(SYS_KEYS) * big):
         # every system in a small-number unit system (compliances >= 1e9: structural zeros of the float inverse
         # carry rounding noise far above any absolute tolerance) and at another scale of the sweep
-        ex = rng.choice([-40, -36, -33, -30]) if (n // len(SYS_KEYS)) % 2 == 0 else rng.choice(SCALE_EXPS)
+        ex = rng.choice([-40, -36, -33, -30]) if (n // len(SYS_KEYS)) % 2 == 0 else rng.choice(SCALE_EXPS + BIG_EXPS)
         sysname = list(SYS_KEYS)[n % len(SYS_KEYS)]
         vals = {k: v * 2.0 ** ex for k, v in _system_consts(rng, sysname).items()}
         ec, e = _call(lambda: EC(**vals))
@@ -2637,7 +2681,7 @@ def _search_scales(ctx, rng, big):
                             {'op': 'representations', 'system': sysname, 'kwargs': vals})
     names = ['C11', 'C12', 'C44', 'E', 'nu', 'K']
     for n in range(ctx.n(6, 60) * big):
-        ex = rng.choice(SCALE_EXPS)
+        ex = rng.choice(SCALE_EXPS) if n % 3 else rng.choice(BIG_EXPS)
         lam = Fraction(rng.randint(1, 64), 8) * Fraction(2) ** ex
         mu = Fraction(rng.randint(1, 64), 8) * Fraction(2) ** ex
         tr = _iso_truth(lam, mu)
@@ -2757,6 +2801,987 @@ def _check_refused_set(ctx, rng, C1, info, fixed=None):
             return
 
 
+# ----------------------------------------------------------------------------------------
+# cross-cutting audit: input forms, options, refusals, moduli definitions, is_normal tolerances, axes_check on its
+# own, data-model representation under non-default working units.  Everything is decided by tables / formulas
+# written out here (nothing is taken from the Lean model or from the code under test).
+# ----------------------------------------------------------------------------------------
+_ISO_QUANTITY = {'C11': 'M', 'M': 'M', 'C12': 'L', 'lambda': 'L', 'C44': 'G', 'mu': 'G', 'E': 'E', 'nu': 'nu', 'K': 'K'}
+_HEX3 = {'C13', 'C33', 'C44'}
+_HEXP = {'C11', 'C12', 'C66'}
+_TET6 = {'C11', 'C12', 'C13', 'C33', 'C44', 'C66'}
+_ORTHO = {'C11', 'C12', 'C13', 'C22', 'C23', 'C33', 'C44', 'C55', 'C66'}
+_MONO = _ORTHO | {'C15', 'C25', 'C35', 'C46'}
+
+
+def _method_admits(meth, keys):
+    """does the documented keyword set of the crystal-system method `meth` admit exactly the key set `keys`?"""
+    k = set(keys)
+    if meth == 'isotropic':
+        return len(k) == 2 and all(x in _ISO_QUANTITY for x in k) and len({_ISO_QUANTITY[x] for x in k}) == 2
+    if meth == 'cubic':
+        return k == {'C11', 'C12', 'C44'}
+    if meth == 'hexagonal':
+        return _HEX3 <= k <= _HEX3 | _HEXP and len(k & _HEXP) >= 2
+    if meth == 'rhombohedral':
+        base = _HEX3 | {'C14'}
+        return base <= k <= base | _HEXP | {'C15'} and len(k & _HEXP) >= 2
+    if meth == 'tetragonal':
+        return _TET6 <= k <= _TET6 | {'C16'}
+    if meth == 'orthorhombic':
+        return k == _ORTHO
+    if meth == 'monoclinic':
+        return k == _MONO
+    if meth == 'triclinic':
+        return k == set(CIJ_KEYS)
+    raise KeyError(meth)
+
+
+def _init_route(keys):
+    """the crystal-system method the constructor documents for a set of named constants (by their number), or None"""
+    k = set(keys)
+    n = len(k)
+    route = {2: 'isotropic', 3: 'cubic', 5: 'hexagonal', 8: 'rhombohedral', 9: 'orthorhombic', 13: 'monoclinic',
+             21: 'triclinic'}.get(n)
+    if n in (6, 7):
+        route = 'rhombohedral' if 'C14' in k else 'tetragonal'
+    return route
+
+
+def _init_admits(keys):
+    r = _init_route(keys)
+    return r is not None and _method_admits(r, keys)
+
+
+def _consistent_values(rng, keys):
+    """values for a set of named constants that describe a stable material; a redundant C66 is consistent"""
+    vals = {}
+    for k in keys:
+        if k in CIJ_KEYS:
+            i, j = int(k[1]), int(k[2])
+            vals[k] = (rng.uniform(6.0, 14.0) * (0.4 if i > 3 else 1.0) if i == j
+                       else rng.uniform(1.0, 4.0) if j <= 3 else rng.uniform(-1.0, 1.0))
+        else:
+            vals[k] = rng.uniform(0.5, 3.0)
+    if 'nu' in vals:
+        vals['nu'] = rng.uniform(0.05, 0.45)
+    if _HEXP <= set(keys) and 'C16' not in keys and ('C14' in keys or len(keys) <= 6) and 'C22' not in keys:
+        vals['C12'] = min(vals['C12'], vals['C11'] - 2.0)
+        vals['C66'] = (vals['C11'] - vals['C12']) / 2
+    return vals
+
+
+_TYPOS = ['foo', 'C77', 'C21', 'C01', 'c11', 'C', 'C111', 'Cij_', 'C 11', 'c44', 'C54', 'nu_', 'lamda', 'Mu', 'e', 'k']
+
+
+@_clause('refusals')
+def _check_keyword_refusals(ctx, rng, n):
+    """keyword sets: every documented set constructs, everything else is refused with TypeError — through the
+    constructor and through the crystal-system method itself.  Decided by `_method_admits` / `_init_route`."""
+    import atomman as am
+    EC = am.ElasticConstants
+    base_sets = [set(ks) for ks in SYS_KEYS.values()] + [{'C11', 'C12'}, {'E', 'nu'}, {'lambda', 'mu'}, {'M', 'K'}] \
+        + [_HEX3 | {'C11', 'C66'}, _HEX3 | {'C12', 'C66'}, _HEX3 | {'C14'} | _HEXP, _HEX3 | {'C14', 'C15'} | _HEXP,
+           _HEX3 | {'C14', 'C15', 'C12', 'C66'}, set(CIJ_KEYS)]
+    meth_sets = [(m_, b_) for b_ in base_sets for m_ in ('isotropic', 'cubic', 'hexagonal', 'rhombohedral', 'tetragonal',
+                                                        'orthorhombic', 'monoclinic', 'triclinic') if _method_admits(m_, b_)]
+    # two names of one modulus next to a third keyword (the aliases are folded into one key by the method)
+    for a1, a2 in (('M', 'C11'), ('lambda', 'C12'), ('mu', 'C44')):
+        third = rng.choice([k for k in _ISO_QUANTITY if _ISO_QUANTITY[k] != _ISO_QUANTITY[a1]])
+        vals = _shuffled(rng, {a1: 7.0, a2: 7.0, third: 0.25 if third == 'nu' else 3.0})
+        obj = EC(C11=10., C12=4., C44=3.)
+        r, e = _call(lambda: obj.isotropic(**vals))
+        ctx.stats.case('oracle:keyword-sets:method', ('isotropic', tuple(sorted(vals))))
+        if e != 'err:type':
+            ctx.violate('refusal:missing:isotropic', f'isotropic({sorted(vals)}): three keywords, two of them names of the '
+                        f'same modulus: {e or "accepted (one keyword silently dropped)"}',
+                        {'op': 'refusal', 'what': 'keywords', 'keys': sorted(vals), 'method': 'isotropic', 'kwargs': vals})
+    for it in range(n):
+        # first a systematic sweep: every method x every documented set of it x (one keyword too many | one replaced |
+        # one missing), called on the method itself; then random perturbations through the constructor as well
+        forced = None
+        if it < 3 * len(meth_sets):
+            forced, keys = meth_sets[it // 3]
+            keys = set(keys)
+            how = 1 + it % 3
+        else:
+            keys = set(rng.choice(base_sets))
+            how = it % 5
+        if how == 1:                      # a typo / a constant that does not belong to the system instead of one key
+            keys.discard(rng.choice(sorted(keys)))
+            keys.add(rng.choice(_TYPOS + [k for k in CIJ_KEYS if k not in keys]))
+        elif how == 2:                    # one keyword too many (for a modulus pair: another name of a modulus)
+            if all(k in _ISO_QUANTITY for k in keys) and rng.random() < 0.7:
+                keys.add(rng.choice([k for k in _ISO_QUANTITY if k not in keys]))
+            else:
+                keys.add(rng.choice(_TYPOS + [k for k in CIJ_KEYS + ['E', 'K', 'nu'] if k not in keys]))
+        elif how == 3:                    # one keyword missing
+            keys.discard(rng.choice(sorted(keys)))
+        elif how == 4:                    # a matrix keyword mixed with named constants
+            keys.add(rng.choice(['Cij', 'Sij', 'Cij9', 'Cijkl', 'Sijkl']))
+        if not keys:
+            continue
+        vals = _shuffled(rng, _consistent_values(rng, [k for k in keys if k not in MATRIX_KEYS]))
+        mixed = keys & set(MATRIX_KEYS)
+        if mixed:
+            donor = EC(C11=10., C12=4., C44=3.)
+            for mk in mixed:
+                vals[mk] = getattr(donor, mk)
+            vals = _shuffled(rng, vals)
+        rep = {'op': 'refusal', 'what': 'keywords', 'keys': sorted(keys)}
+        ctx.stats.case('oracle:keyword-sets', tuple(sorted(keys)), sample=rep)
+        want_ok = (not mixed) and _init_admits(keys)
+        r, e = _call(lambda: EC(**vals).Cij)
+        if want_ok and e is not None:
+            ctx.violate('refusal:spurious:init', f'ElasticConstants({sorted(keys)}) is a documented keyword set but '
+                        f'raised {e}', {**rep, 'kwargs': {k: v for k, v in vals.items() if k not in MATRIX_KEYS}})
+        elif not want_ok and e is None:
+            ctx.violate('refusal:missing:init', f'ElasticConstants({sorted(keys)}) is not a documented keyword set '
+                        'but was accepted (keywords silently ignored / misread)',
+                        {**rep, 'kwargs': {k: v for k, v in vals.items() if k not in MATRIX_KEYS}})
+        elif not want_ok and not mixed and e != 'err:type':
+            ctx.violate('refusal:class:init', f'ElasticConstants({sorted(keys)}) raised {e}, documented: TypeError',
+                        {**rep, 'kwargs': vals})
+        if mixed:
+            continue
+        # the crystal-system methods called directly (each documents its own keyword set)
+        meths = {_init_route(keys), forced} | {rng.choice(['cubic', 'hexagonal', 'rhombohedral', 'tetragonal', 'orthorhombic',
+                                                           'monoclinic', 'isotropic'])}
+        for meth in sorted(m for m in meths if m):
+            want = _method_admits(meth, keys)
+            obj = EC(C11=10., C12=4., C44=3.)
+            before = obj.Cij
+            r, e = _call(lambda: getattr(obj, meth)(**vals))
+            ctx.stats.case('oracle:keyword-sets:method', (meth, tuple(sorted(keys))))
+            repm = {**rep, 'method': meth, 'kwargs': vals}
+            if want and e is not None:
+                ctx.violate(f'refusal:spurious:{meth}', f'{meth}({sorted(keys)}) is documented but raised {e}', repm)
+            elif not want and e is None:
+                ctx.violate(f'refusal:missing:{meth}', f'{meth}({sorted(keys)}) is not a documented keyword set of '
+                            f'{meth} but was accepted (a keyword was silently ignored)', repm)
+            elif not want and e != 'err:type':
+                ctx.violate(f'refusal:class:{meth}', f'{meth}({sorted(keys)}) raised {e}, documented: TypeError', repm)
+            elif not want and not _np().array_equal(obj.Cij, before):
+                ctx.violate(f'state:refused:{meth}', f'{meth}({sorted(keys)}) was refused but changed the object', repm)
+
+
+@_clause('refusals')
+def _check_call_refusals(ctx, rng, n):
+    """refusals that are decided from the values: redundant C66, left-handed / non-orthogonal axes, unknown
+    estimate styles and crystal systems, malformed matrices.  Independent decision, and the refusal must come
+    from the call itself (the object is untouched)."""
+    np = _np()
+    import atomman as am
+    EC = am.ElasticConstants
+    sp = _signed_perms()
+    for it in range(n):
+        C = _spd_float(rng, rng.choice([1.0, 160.2176621]))
+        ec = EC(Cij=C.copy())
+        R = sp[rng.randrange(len(sp))] if it % 2 else _rand_rotation(rng)
+        R = R * np.array([[rng.choice([1.0, 2.0, 0.5, 3.0])] for _ in range(3)])
+        rep = {'op': 'refusal', 'what': 'axes', 'Cij': C.tolist()}
+        # improper: one row negated, two rows exchanged, all rows negated (every position of the flip)
+        bads = []
+        for i in range(3):
+            B = R.copy()
+            B[i] = -B[i]
+            bads.append((f'row {i} negated', B))
+            B = R.copy()
+            B[[i, (i + 1) % 3]] = B[[(i + 1) % 3, i]]
+            bads.append((f'rows {i},{(i + 1) % 3} exchanged', B))
+        bads.append(('all rows negated', -R))
+        for what, B in bads:
+            ctx.stats.case('oracle:refusal:axes', (what, cm.frs(B)))
+            for form, arg in (('array', B), ('list', B.tolist())):
+                r, e = _call(lambda: ec.transform(arg).Cij)
+                if e != 'err:value':
+                    ctx.violate('refusal:missing:left-handed', f'transform accepted left-handed axes ({what}, given as '
+                                f'{form}): {e or "returned a tensor"}', {**rep, 'axes': B.tolist()})
+                    break
+        # not orthogonal: row 0 tilted towards row 1 by delta (relative to unit length)
+        U = R / np.linalg.norm(R, axis=1)[:, None]
+        for delta, want_ok in ((1e-3, False), (1e-5, False), (3e-8, False), (1e-11, True), (0.0, True)):
+            B = U.copy()
+            k0, k1 = rng.sample(range(3), 2)
+            B[k0] = B[k0] + delta * B[k1]
+            B = B * np.array([[rng.choice([1.0, 2.0, 4.0])] for _ in range(3)])
+            r, e = _call(lambda: ec.transform(B).Cij)
+            ctx.stats.case('oracle:refusal:axes', ('tilt', delta, cm.frs(B)))
+            if want_ok and e is not None:
+                ctx.violate('refusal:spurious:axes', f'transform refused axes orthogonal to {delta:g}: {e}',
+                            {**rep, 'axes': B.tolist()})
+            if not want_ok and e != 'err:value':
+                ctx.violate('refusal:missing:non-orthogonal', f'transform accepted axes {delta:g} off orthogonal: '
+                            f'{e or "returned a tensor"}', {**rep, 'axes': B.tolist()})
+        for shp in ((2, 3), (3,), (3, 3, 1), (4, 4)):
+            r, e = _call(lambda: ec.transform(np.ones(shp)).Cij)
+            if e is None:
+                ctx.violate('refusal:missing:axes-shape', f'transform accepted axes of shape {shp}', rep)
+        # estimate styles / crystal systems: exact spellings only
+        for style in ('hill', 'voigt', 'REUSS', '', 'Hil', 'Hill ', 'VRH', None):
+            for which in ('bulk', 'shear'):
+                r, e = _call(lambda: getattr(ec, which)(style))
+                ctx.stats.case('oracle:refusal:style', (which, style))
+                if e != 'err:value':
+                    ctx.violate(f'refusal:missing:{which}-style', f'{which}({style!r}) is not a documented style but '
+                                f'gave {e or r}', {**rep, 'what': 'style', 'style': style})
+        for sysname in ('Cubic', 'trigonal', '', 'iso', 'hcp', 'cubic '):
+            for f, nm in ((lambda: ec.normalized_as(sysname).Cij, 'normalized_as'), (lambda: ec.is_normal(sysname), 'is_normal')):
+                r, e = _call(f)
+                ctx.stats.case('oracle:refusal:system', (nm, sysname))
+                if e != 'err:value':
+                    ctx.violate(f'refusal:missing:{nm}', f'{nm}({sysname!r}) is not a crystal system but gave '
+                                f'{e or "a result"}', {**rep, 'what': 'system', 'system': sysname})
+        # malformed matrices
+        bad_inputs = [('Cij', C[:5, :]), ('Cij', C.ravel()), ('Sij', C[:, :5]), ('Cij9', C), ('Cijkl', C),
+                      ('Sijkl', ec.Cij9), ('Cij', -np.abs(C)), ('Cij', np.zeros((6, 6))), ('Cijkl', -np.abs(ec.Cijkl))]
+        A = C.copy()
+        A[1, 4] += 1e-3 * C.max()
+        bad_inputs += [('Cij', A), ('Cij', np.triu(C))]
+        T = ec.Cijkl
+        T[0, 1, 2, 2] += 1e-3 * C.max()
+        bad_inputs.append(('Cijkl', T))
+        N = ec.Cij9
+        N[6, 2] = np.nextafter(N[6, 2], np.inf)
+        bad_inputs.append(('Cij9', N))
+        for nm, arr in bad_inputs:
+            obj = EC(Cij=C.copy())
+            r, e = _call(lambda: setattr(obj, nm, arr))
+            ctx.stats.case('oracle:refusal:matrix', (nm, cm.frs(arr)[:400]))
+            if e is None:
+                ctx.violate(f'refusal:missing:{nm}', f'the {nm} setter accepted a malformed array of shape '
+                            f'{np.shape(arr)} (asymmetric / wrong shape / no positive entry)', {**rep, 'what': nm})
+            elif not np.array_equal(obj.Cij, ec.Cij):
+                ctx.violate(f'state:refused:{nm}', f'the {nm} setter refused its input ({e}) but changed the object',
+                            {**rep, 'what': nm})
+        # redundant C66 (hexagonal method, rhombohedral through the constructor)
+        vals = _consistent_values(rng, _HEX3 | {'C14'} | _HEXP)
+        for off, want_ok in ((0.0, True), (1e-12, True), (1e-3, False), (-0.5, False)):
+            v2 = _shuffled(rng, {**vals, 'C66': vals['C66'] * (1 + off)})
+            r, e = _call(lambda: EC(**v2).Cij)
+            ctx.stats.case('oracle:refusal:c66', (off, repr(sorted(v2.items()))))
+            if want_ok and e is not None:
+                ctx.violate('refusal:spurious:C66', f'a consistent redundant C66 (relative offset {off:g}) was refused: {e}',
+                            {'op': 'refusal', 'what': 'C66', 'kwargs': v2})
+            if not want_ok and e != 'err:type':
+                ctx.violate('refusal:missing:C66', f'C66 differing from (C11-C12)/2 by {off:g} (relative) gave '
+                            f'{e or "a tensor"}', {'op': 'refusal', 'what': 'C66', 'kwargs': v2})
+
+
+def _frac_inv6(M):
+    """exact inverse of a 6x6 of Fractions (Gauss-Jordan); None if singular"""
+    n = 6
+    A = [list(r) + [Fraction(int(i == j)) for j in range(n)] for i, r in enumerate(M)]
+    for c in range(n):
+        p = next((r for r in range(c, n) if A[r][c] != 0), None)
+        if p is None:
+            return None
+        A[c], A[p] = A[p], A[c]
+        d = A[c][c]
+        A[c] = [x / d for x in A[c]]
+        for r in range(n):
+            if r != c and A[r][c] != 0:
+                f = A[r][c]
+                A[r] = [x - f * y for x, y in zip(A[r], A[c])]
+    return [row[n:] for row in A]
+
+
+@_clause('moduli')
+def _check_moduli(ctx, ec, info, tag):
+    """Voigt / Reuss / Hill by their definitions (isotropic traces of C and of the exact inverse of C); the documented
+    default style; positional and keyword spelling."""
+    np = _np()
+    c = ec.Cij
+    cond = float(np.linalg.cond(c))
+    if cond > 1e6:
+        return
+    F = [[Fraction(float(x)) for x in row] for row in c]
+    S = _frac_inv6(F)
+    ctx.stats.case('oracle:moduli', (tag, cm.frs(c)))
+    if S is None:
+        return
+    tr = lambda M: M[0][0] + M[1][1] + M[2][2]                    # noqa: E731
+    off = lambda M: M[0][1] + M[1][2] + M[0][2]                   # noqa: E731
+    sh = lambda M: M[3][3] + M[4][4] + M[5][5]                    # noqa: E731
+    want = {('bulk', 'Voigt'): (tr(F) + 2 * off(F)) / 9, ('shear', 'Voigt'): (tr(F) - off(F) + 3 * sh(F)) / 15,
+            ('bulk', 'Reuss'): 1 / (tr(S) + 2 * off(S)), ('shear', 'Reuss'): 15 / (4 * tr(S) - 4 * off(S) + 3 * sh(S))}
+    for which in ('bulk', 'shear'):
+        want[which, 'Hill'] = (want[which, 'Voigt'] + want[which, 'Reuss']) / 2
+    rep = {**info, 'op': 'moduli'}
+    for (which, style), w in want.items():
+        got, e = _call(lambda: getattr(ec, which)(style))
+        tol = 1e-13 * (1.0 if style == 'Voigt' else cond)
+        scale = max(abs(float(want[which, 'Voigt'])), abs(float(w)))
+        if e is not None or not abs(float(got) - float(w)) <= tol * scale:
+            ctx.violate(f'moduli:definition:{which}:{style}', f'{tag}: {which}({style!r}) = {e or float(got)}, by its '
+                        f'definition {float(w)}', rep)
+        gk, e = _call(lambda: getattr(ec, which)(style=style))
+        if e is not None or gk != got:
+            ctx.violate(f'moduli:keyword:{which}', f'{tag}: {which}(style={style!r}) = {e or gk} differs from '
+                        f'{which}({style!r}) = {got}', rep)
+    for which in ('bulk', 'shear'):
+        d, e = _call(lambda: getattr(ec, which)())
+        h = getattr(ec, which)('Hill')
+        if e is not None or d != h:
+            ctx.violate(f'moduli:default:{which}', f"{tag}: {which}() = {e or d} is not the documented default "
+                        f"{which}('Hill') = {h}", rep)
+
+
+@_clause('isnormal')
+def _check_is_normal_tolerances(ctx, rng, n):
+    """is_normal(system, atol, rtol) is allclose(Cij, normalized Cij) with THESE tolerances: absolute and relative parts
+    separately, keyword and positional, and the defaults; decided entry by entry here."""
+    np = _np()
+    import atomman as am
+    EC = am.ElasticConstants
+    kinds = ['isotropic', 'cubic', 'hexagonal', 'tetragonal', 'rhombohedral', 'orthorhombic']
+    for it in range(n):
+        kind = kinds[it % len(kinds)]
+        eps = rng.choice([1e-6, 1e-5, 1e-4, 1e-3, 1e-2, 1e-1])
+        C = _near_symmetric(rng, kind, eps * rng.uniform(1, 2)) * 2.0 ** rng.choice([0, 0, 7, -7, 20])
+        ec = EC(Cij=C.copy())
+        c = ec.Cij
+        mx = float(np.abs(c).max())
+        for target in {kind, rng.choice(SYSTEMS)}:
+            nrm = ec.normalized_as(target).Cij
+            d = np.abs(c - nrm)
+            tols = [(0.0, r) for r in (1e-7, 1e-5, 1e-3, 1e-1)] + [(a * mx, 0.0) for a in (1e-7, 1e-5, 1e-3, 1e-1)] \
+                + [(1e-4 * mx, 1e-2), (1e-2 * mx, 1e-6), (None, None)]
+            for a, r in tols:
+                aa, rr = (1e-4, 1e-4) if a is None else (a, r)
+                lim = aa + rr * np.abs(nrm)
+                if np.any((np.abs(d - lim) <= 1e-13 * mx + 1e-6 * lim) & ~((d == 0) & (lim == 0))):
+                    continue                  # an entry sits at the boundary
+                want = bool(np.all(d <= lim))
+                rep = {'op': 'isnormal', 'Cij': C.tolist(), 'system': target, 'atol': a, 'rtol': r}
+                ctx.stats.case('oracle:is-normal', (target, a, r, cm.frs(c)), sample=rep if it < 3 else None)
+                calls = [('defaults', lambda: ec.is_normal(target))] if a is None else \
+                    [('keywords', lambda: ec.is_normal(target, atol=a, rtol=r)),
+                     ('positional', lambda: ec.is_normal(target, a, r)),
+                     ('keywords reversed', lambda: ec.is_normal(rtol=r, crystal_system=target, atol=a))]
+                for how, f in calls:
+                    got, e = _call(f)
+                    if e is not None or bool(got) != want:
+                        ctx.violate('is_normal:tolerances', f'is_normal({target!r}, atol={aa:g}, rtol={rr:g}) [{how}] on a '
+                                    f'nearly {kind} tensor (eps {eps:g}) gave {e or got}; entrywise |C - normalized| '
+                                    f'<= atol + rtol*|normalized| is {want} (max deviation {d.max():.3e})', rep)
+                        break
+
+
+def _totuple(a):
+    return tuple(_totuple(x) for x in a) if isinstance(a, list) else a
+
+
+def _snapshot(x):
+    np = _np()
+    if isinstance(x, np.ndarray):
+        return ('nd', x.dtype.str, x.shape, x.strides, x.tobytes())
+    return ('py', repr(x))
+
+
+def _array_forms(arr, rng, exact32, integral):
+    """the same numbers in the ways callers hold them; -> (name, object)"""
+    np = _np()
+    out = [('list', arr.tolist()), ('tuple', _totuple(arr.tolist())), ('fortran', np.asfortranarray(arr))]
+    ro = arr.copy()
+    ro.flags.writeable = False
+    out.append(('read-only', ro))
+    big = np.full(tuple(2 * s + 1 for s in arr.shape), -3.5)
+    sl = tuple(slice(1, None, 2) for _ in arr.shape)
+    big[sl] = arr
+    out.append(('strided view', big[sl]))
+    out.append(('transposed twice', arr.T.copy().T))
+    if exact32:
+        out.append(('float32', arr.astype(np.float32)))
+    if integral:
+        out += [('int64', arr.astype(np.int64)), ('int32', arr.astype(np.int32)),
+                ('list of int', arr.astype(np.int64).tolist())]
+    return out
+
+
+@_clause('inputforms')
+def _check_matrix_input_forms(ctx, rng, n):
+    """the five array entry points accept array-likes: lists, tuples, Fortran / strided / read-only arrays, float32,
+    integer dtypes.  Same numbers in -> bitwise the same object; the input is not modified; nothing handed out or
+    stored shares memory with it; every getter returns float64."""
+    np = _np()
+    import atomman as am
+    EC = am.ElasticConstants
+    for it in range(n):
+        integral = it % 2 == 0
+        C = _spd_dyadic(rng, 3)
+        if integral:
+            C = np.round(C * 8.0)
+        donor = EC(Cij=C.copy())
+        for nm in ('Cij', 'Sij', 'Cij9', 'Cijkl', 'Sijkl'):
+            arr = getattr(donor, nm)
+            stiff = not nm.startswith('S')
+            forms = _array_forms(arr, rng, exact32=True, integral=integral and stiff)
+            for fname, obj in forms:
+                base = np.array(obj, dtype='float64')           # what these numbers are, as a fresh float64 array
+                ref, eref = _call(lambda: EC(**{nm: base.copy()}))
+                if eref is not None:
+                    continue
+                snap = _snapshot(obj)
+                rep = {'op': 'inputform', 'Cij': C.tolist(), 'entry': nm, 'form': fname}
+                ctx.stats.case('oracle:input-forms', (nm, fname, cm.frs(C)), sample=rep if it < 2 else None)
+                how = it % 3
+                if how == 0:
+                    ec, e = _call(lambda: EC(**{nm: obj}))
+                elif how == 1:
+                    ec = EC()
+                    _, e = _call(lambda: setattr(ec, nm, obj))
+                else:
+                    ec = EC(C11=3., C12=1., C44=1.)
+                    _, e = _call(lambda: setattr(ec, nm, obj))
+                if e is not None:
+                    ctx.violate(f'input-form:refused:{nm}', f'{nm} given as {fname} was refused ({e}); the same numbers '
+                                'as a float64 array are accepted', rep)
+                    continue
+                if _snapshot(obj) != snap:
+                    ctx.violate(f'input-form:modified:{nm}', f'the {fname} handed to {nm} was modified', rep)
+                for rd in ('Cij', 'Sij', 'Cij9', 'Cijkl', 'Sijkl'):
+                    a, b = _read(ec, rd), _read(ref, rd)
+                    if not _same_obs(a, b):
+                        ctx.violate(f'input-form:value:{nm}', f'{nm} given as {fname}: .{rd} differs from the object '
+                                    'built from the same numbers as a float64 array', rep)
+                        break
+                    if isinstance(a, np.ndarray) and (a.dtype != np.float64 or not a.flags.writeable
+                                                      or (isinstance(obj, np.ndarray) and np.shares_memory(a, obj))):
+                        ctx.violate(f'input-form:dtype:{nm}', f'{nm} given as {fname}: .{rd} is returned as {a.dtype}, '
+                                    f'writeable={a.flags.writeable}, shares memory with the input='
+                                    f'{isinstance(obj, np.ndarray) and bool(np.shares_memory(a, obj))}', rep)
+                        break
+                # the caller goes on using its array
+                if isinstance(obj, np.ndarray) and obj.flags.writeable:
+                    keep = ec.Cij
+                    obj[...] = 1
+                    if not np.array_equal(ec.Cij, keep):
+                        ctx.violate(f'input-form:aliased:{nm}', f'the object built from {nm} given as {fname} changes '
+                                    'when the caller overwrites its array', rep)
+
+
+_WRAPPERS = ['float', 'int', 'np.int64', 'np.int32', 'np.float32', 'np.float64', '0-d array', '0-d int array']
+
+
+def _wrap(np, how, v):
+    if how == 'int':
+        return int(v)
+    if how == 'np.int64':
+        return np.int64(v)
+    if how == 'np.int32':
+        return np.int32(v)
+    if how == 'np.float32':
+        return np.float32(v)
+    if how == 'np.float64':
+        return np.float64(v)
+    if how == '0-d array':
+        return np.array(float(v))
+    if how == '0-d int array':
+        return np.array(int(v))
+    return float(v)
+
+
+@_clause('inputforms')
+def _check_scalar_input_forms(ctx, rng, n):
+    """named constants and modulus pairs given as python int / float / numpy integer and float scalars / 0-d arrays,
+    mixed within one call: the same numbers describe the same tensor (magnitudes from 1 to 1e11: Pa as integers)."""
+    np = _np()
+    import atomman as am
+    EC = am.ElasticConstants
+    for it in range(n):
+        if it % 2 == 0:
+            # crystal constants: integer valued (2*C66 = C11 - C12 even), times a magnitude
+            sysname = list(SYS_KEYS)[(it // 2) % len(SYS_KEYS)]
+            mag = rng.choice([1, 1, 10, 1000, 10 ** 6])
+            vals = {}
+            for k in SYS_KEYS[sysname]:
+                i, j = int(k[1]), int(k[2])
+                vals[k] = mag * (2 * rng.randint(30, 60) if i == j else 2 * rng.randint(5, 12) if j <= 3
+                                 else rng.choice([-4, -2, 2, 4, 0]))
+            tag, tol = sysname, 0.0
+        else:
+            # modulus pairs with integer values: mu = lambda = 6a -> C11 18a, C12 6a, C44 6a, E 15a, K 10a
+            mags = [1, 7, 1000, 2000, 30000, 10 ** 7, 3 * 10 ** 9, 10 ** 10]
+            a = mags[(it // 2) % len(mags)]
+            truth = {'C11': 18 * a, 'C12': 6 * a, 'C44': 6 * a, 'M': 18 * a, 'lambda': 6 * a, 'mu': 6 * a, 'E': 15 * a,
+                     'K': 10 * a}
+            prods = [('C11', 'E'), ('C12', 'E'), ('C44', 'E'), ('E', 'K'), ('M', 'E'), ('lambda', 'E'), ('mu', 'E')]
+            if (it // 2) % 3 != 2:       # the pairs whose formulas multiply two moduli, in turn
+                pair = list(prods[(it // 2 // 3) % len(prods)])
+            else:
+                while True:
+                    pair = rng.sample(sorted(truth), 2)
+                    if _ISO_QUANTITY[pair[0]] != _ISO_QUANTITY[pair[1]]:
+                        break
+            vals = {k: truth[k] for k in pair}
+            tag, tol = 'isotropic pair', 1e-12
+        ref, e0 = _call(lambda: EC(**{k: float(v) for k, v in vals.items()}).Cij)
+        if e0 is not None:
+            continue
+        if it % 2 == 1:
+            want = np.array([[float(x) for x in r] for r in _iso_matrix(Fraction(6 * a), Fraction(6 * a))])
+            if not np.allclose(ref, want, rtol=1e-12, atol=0):
+                ctx.violate('iso:integer-valued', f'ElasticConstants({vals}) (floats) is not lambda = mu = {6 * a}',
+                            {'op': 'scalarform', 'kwargs': {k: float(v) for k, v in vals.items()}, 'forms': {}})
+        for rep_ in range(4):
+            forms = {k: rng.choice(_WRAPPERS) for k in vals}
+            if rep_ == 0:                # all numpy integers (e.g. taken from an integer array)
+                forms = {k: 'np.int32' for k in vals}
+            elif rep_ == 1:
+                forms = {k: 'np.float32' for k in vals}
+            if max(abs(v) for v in vals.values()) >= 2 ** 31:
+                forms = {k: ('np.int64' if f in ('np.int32',) else f) for k, f in forms.items()}
+            if max(abs(v) for v in vals.values()) >= 2 ** 24:
+                forms = {k: ('np.float64' if f == 'np.float32' else f) for k, f in forms.items()}
+            wrapped = _shuffled(rng, {k: _wrap(np, forms[k], v) for k, v in vals.items()})
+            rep = {'op': 'scalarform', 'kwargs': {k: float(v) for k, v in vals.items()}, 'forms': forms}
+            ctx.stats.case('oracle:scalar-forms', (tag, repr(sorted(vals.items())), repr(sorted(forms.items()))),
+                           sample=rep if it < 4 else None)
+            got, e = _call(lambda: EC(**wrapped).Cij)
+            if e is not None or got.dtype != np.float64 or not np.allclose(got, ref, rtol=tol, atol=0):
+                d = e or (f'dtype {got.dtype}' if got.dtype != np.float64 else f'max relative difference '
+                          f'{np.abs(got - ref).max() / np.abs(ref).max():.3e}')
+                ctx.violate(f'input-form:scalars:{tag.split()[0]}', f'ElasticConstants({vals}) given as {forms} differs '
+                            f'from the same numbers given as python floats: {d}', rep)
+                break
+
+
+@_clause('transformoptions')
+def _check_transform_options(ctx, rng, n):
+    """transform(axes, tol): `tol` explicit / positional / zero; axes as nested lists of ints, tuples, integer and
+    float32 arrays, Fortran / read-only / strided arrays, non-unit rows.  Signed-permutation axes and tensors with a
+    few planted small entries: the rotation is exact in floating point, so the expected 6x6 — entries below
+    tol*max dropped, then the Cij setter's 1e-9*max — is known exactly."""
+    np = _np()
+    import atomman as am
+    EC = am.ElasticConstants
+    sp = _signed_perms()
+    for it in range(n):
+        C = _spd_dyadic(rng, 2) * 2.0 ** rng.choice([0, 0, 9, -9, -30, 30])
+        mx = float(C.max())
+        planted = [3e-10, 5e-9, 2.5e-8, 6e-8, 1.5e-6, 1e-4, 2e-3]
+        for f in rng.sample(planted, 4):
+            a, b = rng.sample(range(6), 2)
+            C[a, b] = C[b, a] = f * mx * rng.choice([1.0, -1.0])
+        ec, e = _call(lambda: EC(Cij=C.copy()))
+        if e is not None:
+            continue
+        R = sp[rng.randrange(len(sp))]
+        TF = [[Fraction(float(x)) for x in row] for row in R]
+        want4 = _rot4(TF, _F(ec.Cijkl))
+        W = np.array([[float(want4[27 * i + 9 * j + 3 * k + l]) for (k, l) in ((0, 0), (1, 1), (2, 2), (1, 2), (0, 2), (0, 1))]
+                      for (i, j) in ((0, 0), (1, 1), (2, 2), (1, 2), (0, 2), (0, 1))])
+        wmx = float(W.max())
+        for tol, how in ((None, 'default'), (0, 'kw'), (0.0, 'pos'), (1e-12, 'kw'), (1e-7, 'pos'), (1e-5, 'kw'), (1e-3, 'pos')):
+            t = 1e-8 if tol is None else float(tol)
+            ratio = np.abs(W / wmx)
+            if np.any((np.abs(ratio - t) <= 1e-6 * t) & (ratio > 0)) or np.any(np.abs(ratio - 1e-9) <= 1e-15):
+                continue
+            exp = W.copy()
+            exp[ratio < t] = 0.0
+            exp[np.abs(exp / exp.max()) <= 1e-9] = 0.0
+            f = {'default': lambda: ec.transform(R), 'kw': lambda: ec.transform(R, tol=tol),
+                 'pos': lambda: ec.transform(R, tol)}[how]
+            got, e = _call(lambda: f().Cij)
+            rep = {'op': 'transformtol', 'Cij': C.tolist(), 'axes': R.tolist(), 'tol': tol, 'how': how}
+            ctx.stats.case('oracle:transform-tol', (how, tol, cm.frs(C), cm.frs(R)), sample=rep if it < 2 else None)
+            if e is not None or not np.array_equal(got, exp):
+                bad = '' if e else f'; first differing entry {tuple(np.argwhere(got != exp)[0])}: ' \
+                    f'{got[tuple(np.argwhere(got != exp)[0])]!r} expected {exp[tuple(np.argwhere(got != exp)[0])]!r}'
+                ctx.violate('transform:tol', f'transform(signed permutation, tol={tol!r} [{how}]) of a tensor with small '
+                            f'entries: {e or "differs from the exactly rotated tensor with |C/Cmax| < tol dropped"}{bad}', rep)
+        # forms of the axes argument
+        scal = np.array([[rng.choice([1.0, 2.0, 4.0, 0.5])] for _ in range(3)])
+        Rq = _quat_rot(rng)[0]
+        for base, exact_ints, exact in ((R, True, True), (R * scal, False, True), (Rq * scal, False, False)):
+            ref, e = _call(lambda: ec.transform(np.array(base, dtype='float64')).Cij)
+            if e is not None:
+                continue
+            forms = _array_forms(np.array(base, dtype='float64'), rng, exact32=exact_ints, integral=exact_ints)
+            for fname, obj in forms:
+                snap = _snapshot(obj)
+                got, e = _call(lambda: ec.transform(obj).Cij)
+                rep = {'op': 'axesform', 'Cij': C.tolist(), 'axes': np.asarray(base).tolist(), 'form': fname}
+                ctx.stats.case('oracle:axes-forms', (fname, cm.frs(base), cm.frs(C)), sample=rep if it < 2 else None)
+                # signed-permutation axes (rows scaled by powers of two): exact arithmetic, whatever the memory layout;
+                # general axes: the einsum summation order may depend on the layout (rounding only)
+                if e is not None or not (np.array_equal(got, ref) if exact else
+                                         np.allclose(got, ref, rtol=1e-12, atol=1e-13 * abs(mx))):
+                    ctx.violate('transform:axes-form', f'transform with the axes given as {fname}: '
+                                f'{e or "differs from the same axes as a float64 array"}', rep)
+                if _snapshot(obj) != snap:
+                    ctx.violate('transform:axes-modified', f'transform modified the axes it was given ({fname})', rep)
+
+
+@_clause('axescheck')
+def _check_axes_check(ctx, rng, n):
+    """tools.axes_check on its own: unit vectors of the rows, fresh output, input untouched, `tol` honoured, refusals."""
+    np = _np()
+    from atomman.tools import axes_check
+    for it in range(n):
+        while True:
+            a, b, c, d = (rng.randint(-4, 4) for _ in range(4))
+            if a * a + b * b + c * c + d * d and (b or c or d):
+                break
+        Ri = [[a * a + b * b - c * c - d * d, 2 * (b * c - a * d), 2 * (b * d + a * c)],
+              [2 * (b * c + a * d), a * a - b * b + c * c - d * d, 2 * (c * d - a * b)],
+              [2 * (b * d - a * c), 2 * (c * d + a * b), a * a - b * b - c * c + d * d]]
+        Ri = [[x * m for x in row] for row, m in zip(Ri, (rng.choice([1, 2, 5]), rng.choice([1, 3]), rng.choice([1, 7])))]
+        A = np.array(Ri, dtype=float) * 2.0 ** rng.choice([0, 0, -20, 20, -300, 300])
+        for fname, obj in _array_forms(A, rng, exact32=False, integral=bool(np.all(np.abs(A) < 2 ** 31) and np.all(A == np.round(A)))):
+            snap = _snapshot(obj)
+            u, e = _call(lambda: axes_check(obj))
+            rep = {'op': 'axescheck', 'axes': A.tolist(), 'form': fname}
+            ctx.stats.case('oracle:axes-check', (fname, cm.frs(A)), sample=rep if it < 2 else None)
+            if e is not None:
+                ctx.violate('axes_check:refused', f'axes_check refused the orthogonal right-handed integer directions '
+                            f'{Ri} (given as {fname}): {e}', rep)
+                continue
+            if _snapshot(obj) != snap:
+                ctx.violate('axes_check:modified', f'axes_check modified its input ({fname})', rep)
+            ok = isinstance(u, np.ndarray) and u.shape == (3, 3) and u.dtype == np.float64
+            if ok:
+                for i in range(3):
+                    n2 = sum(Fraction(x) ** 2 for x in Ri[i])
+                    for j in range(3):
+                        w = Ri[i][j] / math.sqrt(n2)
+                        ok = ok and abs(u[i, j] - w) <= 4e-16
+            if not ok:
+                ctx.violate('axes_check:value', f'axes_check({fname} of {Ri}) is not the matrix of unit row vectors', rep)
+            elif isinstance(obj, np.ndarray) and np.shares_memory(u, obj):
+                ctx.violate('axes_check:aliased', f'axes_check returns memory of its input ({fname})', rep)
+        # refusals and the tolerance argument
+        U = A / np.linalg.norm(A, axis=1)[:, None]
+        for i in range(3):
+            B = A.copy()
+            B[i] = -B[i]
+            B2 = A.copy()
+            B2[[i, (i + 1) % 3]] = B2[[(i + 1) % 3, i]]
+            for what, M in ((f'row {i} negated', B), (f'rows {i},{(i + 1) % 3} exchanged', B2)):
+                for tol in (None, 1e-3, 0.5):
+                    r, e = _call(lambda: axes_check(M) if tol is None else axes_check(M, tol=tol))
+                    ctx.stats.case('oracle:axes-check:refusal', (what, tol, cm.frs(M)))
+                    if e != 'err:value':
+                        ctx.violate('axes_check:left-handed', f'axes_check accepted left-handed axes ({what}, tol={tol}): '
+                                    f'{e or "returned"}', {'op': 'axescheck', 'axes': M.tolist(), 'form': 'array'})
+        k0, k1 = rng.sample(range(3), 2)
+        for tol, how in ((None, 'default'), (1e-3, 'kw'), (1e-12, 'pos'), (1e-5, 'kw')):
+            t = 1e-8 if tol is None else tol
+            for fac, want_ok in ((0.3, True), (3.0, False)):
+                if t * fac < 4e-16:
+                    continue
+                B = U.copy()
+                B[k0] = B[k0] + t * fac * B[k1]
+                f = {'default': lambda: axes_check(B), 'kw': lambda: axes_check(B, tol=tol),
+                     'pos': lambda: axes_check(B, tol)}[how]
+                r, e = _call(f)
+                ctx.stats.case('oracle:axes-check:tol', (how, tol, fac, cm.frs(B)))
+                if want_ok and e is not None:
+                    ctx.violate('axes_check:tol', f'axes {t * fac:g} off orthogonal refused at tol={t:g} [{how}]: {e}',
+                                {'op': 'axescheck', 'axes': B.tolist(), 'form': 'array', 'tol': tol})
+                if not want_ok and e != 'err:value':
+                    ctx.violate('axes_check:tol', f'axes {t * fac:g} off orthogonal accepted at tol={t:g} [{how}]',
+                                {'op': 'axescheck', 'axes': B.tolist(), 'form': 'array', 'tol': tol})
+
+
+# ---- the data model as one more representation; working units --------------------------------------------------
+WU_DEFAULT = {'length': 'angstrom', 'mass': 'amu', 'energy': 'eV', 'charge': 'e'}
+_LEN_M = {'angstrom': 1e-10, 'nm': 1e-9, 'm': 1.0, 'cm': 1e-2}
+_EN_J = {'eV': 1.602176634e-19, 'J': 1.0, 'mJ': 1e-3}
+_PRESSURE_PA = {'GPa': 1e9, 'MPa': 1e6, 'Pa': 1.0, 'bar': 1e5, 'eV/angstrom^3': 1.602176634e-19 / 1e-30,
+                'J/m^3': 1.0, 'mJ/cm^3': 1e3}
+_WU_SYSTEMS = [dict(WU_DEFAULT), {'length': 'nm', 'mass': 'kg', 'energy': 'J', 'charge': 'C'},
+               {'length': 'm', 'mass': 'kg', 'energy': 'J', 'charge': 'C'},
+               {'length': 'nm', 'mass': 'amu', 'energy': 'eV', 'charge': 'e'},
+               {'length': 'cm', 'mass': 'g', 'energy': 'mJ', 'charge': 'C'},
+               {'length': 'angstrom', 'mass': 'kg', 'energy': 'J', 'charge': 'e'}]
+
+
+def _wu_pressure(kw):
+    """the working unit of pressure in Pa for reset_units(length=, energy=, ...): energy / length^3"""
+    return _EN_J[kw['energy']] / _LEN_M[kw['length']] ** 3
+
+
+def _model_values(m):
+    np = _np()
+    node = m['elastic-constants']['Cij']
+    return np.array(node['value'], dtype=float).reshape(6, 6), node.get('unit', None)
+
+
+@_clause('model')
+def _check_model(ctx, rng, n):
+    """model() / ElasticConstants(model=...) is one more representation of the tensor: values in the requested unit
+    (conversion factors written out here), round trips through DataModelDict / JSON / XML, reload into a used object,
+    normalisation option, old per-constant format, and all of it under non-default working units, including a change
+    of the working units between two calls on one object.  The working units are restored afterwards."""
+    np = _np()
+    import atomman as am
+    import atomman.unitconvert as uc
+    from DataModelDict import DataModelDict as DM
+    EC = am.ElasticConstants
+    try:
+        for it in range(n):
+            kwA = _WU_SYSTEMS[it % len(_WU_SYSTEMS)]
+            kwB = rng.choice([k for k in _WU_SYSTEMS if k is not kwA])
+            C = _spd_float(rng, rng.choice([1.0, 160.2176621, 1e-3])) if it % 2 else _spd_dyadic(rng, 3)
+            info = {'op': 'model', 'Cij': C.tolist(), 'units': kwA, 'units2': kwB}
+            uc.reset_units(**kwA)
+            pA, pB = _wu_pressure(kwA), _wu_pressure(kwB)
+            ec = EC(Cij=C.copy())
+            c = ec.Cij
+            first = {}
+            for u in [None] + rng.sample(sorted(_PRESSURE_PA), 3):
+                ctx.stats.case('oracle:model', (repr(sorted(kwA.items())), u, cm.frs(C)), sample=info if it < 3 else None)
+                m, e = _call(lambda: ec.model(unit=u))
+                if e is not None:
+                    ctx.violate('model:raises', f'model(unit={u!r}) raised {e} under working units {kwA}', info)
+                    continue
+                vals, unit = _model_values(m)
+                first[u] = vals
+                want = c if u is None else c * (pA / _PRESSURE_PA[u])
+                if unit != u or not np.allclose(vals, want, rtol=(0 if u is None else 1e-12), atol=0):
+                    ctx.violate('model:values', f'model(unit={u!r}) under working units {kwA}: unit field {unit!r}, values '
+                                f'differ from Cij in {u or "working units"} by {np.abs(vals / np.where(want == 0, 1, want) - (want != 0)).max():.3e} '
+                                '(relative)', {**info, 'unit': u})
+                # back in: DataModelDict, JSON text, XML text; into a fresh and into a used object
+                for how, src in (('DataModelDict', m), ('json', m.json()), ('xml', m.xml())):
+                    for used in (False, True):
+                        def back():
+                            if not used:
+                                return EC(model=src).Cij
+                            o = EC(C11=3., C12=1., C44=1.)
+                            o.Sij                                       # noqa: B018
+                            o.model(model=src)
+                            return o.Cij
+                        r, e = _call(back)
+                        if e is not None or not np.allclose(r, c, rtol=(0 if u is None and how == 'DataModelDict' else 1e-13), atol=0):
+                            ctx.violate('model:roundtrip', f'ElasticConstants(model=model(unit={u!r}) as {how}) '
+                                        f'{"into a used object " if used else ""}under {kwA}: '
+                                        f'{e or "differs from the tensor by %.3e" % np.abs(r - c).max()}', {**info, 'unit': u})
+            # normalisation option = normalized_as
+            target = rng.choice(SYSTEMS)
+            m, e = _call(lambda: ec.model(unit='GPa', crystal_system=target))
+            if e is None:
+                vals, _ = _model_values(m)
+                want = ec.normalized_as(target).Cij * (pA / 1e9)
+                if not np.allclose(vals, want, rtol=1e-12, atol=0):
+                    ctx.violate('model:normalized', f'model(crystal_system={target!r}) is not normalized_as({target!r})',
+                                {**info, 'system': target})
+            else:
+                ctx.violate('model:raises', f'model(crystal_system={target!r}) raised {e}', info)
+            if not np.array_equal(ec.Cij, c):
+                ctx.violate('model:mutates', 'model() changed the object', info)
+            # old format: one element per constant, each with its own unit
+            sysname = rng.choice(list(SYS_KEYS))
+            consts = _system_consts(rng, sysname)
+            u_old = rng.choice(sorted(_PRESSURE_PA))
+            old = DM()
+            old['elastic-constants'] = DM()
+            for k, v in consts.items():
+                old['elastic-constants'].append('C', DM([('stiffness', DM([('value', v), ('unit', u_old)])),
+                                                         ('ij', f'{k[1]} {k[2]}')]))
+            r, e = _call(lambda: EC(model=old).Cij)
+            fct = _PRESSURE_PA[u_old] / pA
+            want, _ = _call(lambda: EC(**{k: v * fct for k, v in consts.items()}).Cij)
+            ctx.stats.case('oracle:model:old-format', (sysname, u_old, repr(sorted(kwA.items()))))
+            if e is not None or not np.allclose(r, want, rtol=1e-12, atol=1e-12 * float(np.abs(want).max())):
+                ctx.violate('model:old-format', f'old-format model of {sysname} constants in {u_old} under {kwA}: '
+                            f'{e or "is not the tensor of these constants"}',
+                            {'op': 'model-old', 'system': sysname, 'kwargs': consts, 'unit': u_old, 'units': kwA})
+            # the working units change between two calls on the same object: the stored numbers are numbers of the
+            # NEW working units from then on (what a fresh object holding the same numbers gives)
+            mA, _ = _call(lambda: ec.model(unit='GPa'))
+            uc.reset_units(**kwB)
+            for u in ('GPa', rng.choice(sorted(_PRESSURE_PA))):
+                m2, e = _call(lambda: ec.model(unit=u))
+                ctx.stats.case('oracle:model:units-changed', (repr(sorted(kwA.items())), repr(sorted(kwB.items())), u, cm.frs(C)))
+                if e is not None:
+                    ctx.violate('model:raises', f'model(unit={u!r}) raised {e} after reset_units({kwB})', info)
+                    continue
+                vals, _ = _model_values(m2)
+                want = c * (pB / _PRESSURE_PA[u])
+                if not np.allclose(vals, want, rtol=1e-12, atol=0):
+                    ctx.violate('model:stale-units', f'after reset_units({kwB}) model(unit={u!r}) of an object that was '
+                                f'asked for a model under {kwA} before still uses the old conversion (relative '
+                                f'difference {np.abs(vals / want - 1)[want != 0].max():.3e})', {**info, 'unit': u})
+            if mA is not None:
+                r, e = _call(lambda: EC(model=mA).Cij)           # written in GPa under A, read under B: same material
+                if e is not None or not np.allclose(r, c * (pA / pB), rtol=1e-12, atol=0):
+                    ctx.violate('model:read-units', f'a model written in GPa under {kwA} and read under {kwB} is not the '
+                                f'same tensor in the new working units: {e or np.abs(r / (c * (pA / pB)) - 1)[c != 0].max()}', info)
+        # random working units (numericalunits' own mode): only self-consistency can be asked
+        for seed in (rng.randrange(1, 10 ** 6), 'SI'):
+            uc.reset_units(seed)
+            C = _spd_float(rng)
+            ec = EC(Cij=C.copy())
+            for u in (None, 'GPa', 'eV/angstrom^3'):
+                r, e = _call(lambda: EC(model=ec.model(unit=u)).Cij)
+                ctx.stats.case('oracle:model:seed', (seed, u, cm.frs(C)))
+                if e is not None or not np.allclose(r, ec.Cij, rtol=1e-13, atol=0):
+                    ctx.violate('model:roundtrip', f'model round trip (unit={u!r}) under reset_units({seed!r}): '
+                                f'{e or np.abs(r - ec.Cij).max()}', {'op': 'model', 'Cij': C.tolist(), 'seed': seed})
+            if seed == 'SI':
+                vals, _ = _model_values(ec.model(unit='GPa'))
+                if not np.allclose(vals, ec.Cij / 1e9, rtol=1e-13, atol=0):
+                    ctx.violate('model:values', 'model(unit=GPa) under SI working units is not Cij / 1e9',
+                                {'op': 'model', 'Cij': C.tolist(), 'seed': 'SI'})
+    finally:
+        uc.reset_units(**WU_DEFAULT)
+
+
+def _search_audit(ctx, rng, big):
+    """the cross-cutting classes (input forms, options, environment, refusals) and definitions that the symmetry /
+    invariance clauses cannot see (an estimate that is wrong but rotation invariant, a default, a tolerance)."""
+    np = _np()
+    import atomman as am
+    EC = am.ElasticConstants
+    _check_keyword_refusals(ctx, rng, ctx.n(160, 900) * big)
+    _check_call_refusals(ctx, rng, ctx.n(3, 30) * big)
+    for it in range(ctx.n(12, 120) * big):
+        if it % 3 == 0:
+            C = _spd_float(rng, rng.choice([1.0, 160.2176621, 2.0 ** -33, 2.0 ** 37]))
+        elif it % 3 == 1:
+            C = _near_symmetric(rng, rng.choice(['isotropic', 'cubic', 'hexagonal', 'rhombohedral']), rng.choice(ANISO))
+        else:
+            C = _spd_cond(rng, 10.0 ** rng.uniform(1, 4))
+        ec, e = _call(lambda: EC(Cij=C.copy()))
+        if e is None:
+            _check_moduli(ctx, ec, {'Cij': C.tolist()}, 'SPD')
+    for it in range(ctx.n(4, 40) * big):           # isotropic: every estimate is the modulus itself
+        lam, mu = Fraction(rng.randint(0, 64), 8), Fraction(rng.randint(1, 64), 8)
+        ec = EC(Cij=np.array([[float(x) for x in r] for r in _iso_matrix(lam, mu)]))
+        K = float(lam + Fraction(2, 3) * mu)
+        for which, w in (('bulk', K), ('shear', float(mu))):
+            for style in ('Voigt', 'Reuss', 'Hill', None):
+                got, e = _call(lambda: getattr(ec, which)() if style is None else getattr(ec, which)(style))
+                ctx.stats.case('oracle:moduli:isotropic', (which, style, str(lam), str(mu)))
+                if e is not None or abs(got - w) > 1e-13 * (K + float(mu)):
+                    ctx.violate(f'moduli:isotropic:{which}', f'{which}({style or ""}) of the isotropic tensor lambda={float(lam)}, '
+                                f'mu={float(mu)} is {e or got}, expected {w}',
+                                {'op': 'moduli', 'Cij': ec.Cij.tolist()})
+    for it in range(ctx.n(24, 240) * big):        # nu = 0 (E = M = 2 mu) for moduli that are not dyadic
+        x = rng.uniform(0.01, 300.0) * 2.0 ** rng.choice([0, 0, 0, 30, -30])
+        for wrap in (float, np.float64):
+            got, e = _call(lambda: EC(**_shuffled(rng, {'M': wrap(x), 'E': wrap(x)})).Cij)
+            ctx.stats.case('oracle:iso-pair:nu0', (x, wrap.__name__))
+            if e is not None or got[0, 1] != 0.0 or abs(got[3, 3] - x / 2) > 1e-12 * x or got[0, 0] != x:
+                ctx.violate('iso:C11,E', f'ElasticConstants(M={x!r}, E={x!r}) [{wrap.__name__}] (nu = 0, mu = M/2) gave '
+                            f'{e or [got[0, 0], got[0, 1], got[3, 3]]}',
+                            {'op': 'iso', 'kwargs': {'M': x, 'E': x}, 'lambda': '0', 'mu': str(Fraction(x) / 2)})
+                break
+    _check_is_normal_tolerances(ctx, rng, ctx.n(8, 80) * big)
+    _check_matrix_input_forms(ctx, rng, ctx.n(3, 24) * big)
+    _check_scalar_input_forms(ctx, rng, ctx.n(48, 400) * big)
+    _check_transform_options(ctx, rng, ctx.n(5, 50) * big)
+    _check_axes_check(ctx, rng, ctx.n(5, 50) * big)
+    _check_model(ctx, rng, ctx.n(6, 36) * big)
+
+
+def _replay_audit(ctx, r):
+    """re-evaluate one stored case of the cross-cutting clauses"""
+    np = _np()
+    import atomman as am
+    EC = am.ElasticConstants
+    op = r.get('op')
+    rng = random.Random(0)
+    if op == 'moduli':
+        _check_moduli(ctx, EC(Cij=np.array(r['Cij'])), {'Cij': r['Cij']}, 'replay')
+    elif op == 'refusal' and r.get('what') == 'keywords':
+        vals = dict(r.get('kwargs', {}))
+        for mk in set(r['keys']) & set(MATRIX_KEYS):
+            vals[mk] = getattr(EC(C11=10., C12=4., C44=3.), mk)
+        meth = r.get('method')
+        if meth:
+            want = _method_admits(meth, r['keys'])
+            _, e = _call(lambda: getattr(EC(C11=10., C12=4., C44=3.), meth)(**vals))
+        else:
+            want = not (set(r['keys']) & set(MATRIX_KEYS)) and _init_admits(r['keys'])
+            _, e = _call(lambda: EC(**vals))
+        print(f"replay: {meth or 'ElasticConstants'}({sorted(r['keys'])}) -> {e or 'accepted'}; documented keyword set: {want}")
+        if want != (e is None) or (not want and not (set(r['keys']) & set(MATRIX_KEYS)) and e != 'err:type'):
+            ctx.violate('refusal:replay', 'replayed case still fails', r)
+    elif op == 'refusal' and r.get('what') == 'axes':
+        A = np.array(r['axes'], dtype=float)
+        U = A / np.linalg.norm(A, axis=1)[:, None]
+        off = float(np.abs(U @ U.T - np.eye(3)).max())
+        det = float(np.linalg.det(U))
+        _, e = _call(lambda: EC(Cij=np.array(r['Cij'])).transform(A))
+        print(f'replay: axes with det {det:+.3f}, {off:.3e} off orthogonal -> {e or "accepted"}')
+        want_refused = det < 0 or off > 2e-8
+        if (off < 5e-9 or off > 2e-8) and want_refused != (e == 'err:value'):
+            ctx.violate('refusal:replay', 'replayed case still fails', r)
+    elif op == 'refusal' and r.get('what') == 'C66':
+        v = r['kwargs']
+        c66 = (v['C11'] - v['C12']) / 2
+        _, e = _call(lambda: EC(**v))
+        want_ok = abs(v['C66'] - c66) <= 1e-8 + 1e-5 * abs(v['C66']) * 0.5
+        print(f"replay: C66 = {v['C66']}, (C11-C12)/2 = {c66} -> {e or 'accepted'}")
+        if want_ok != (e is None):
+            ctx.violate('refusal:replay', 'replayed case still fails', r)
+    elif op == 'scalarform':
+        vals, forms = r['kwargs'], r['forms']
+        ref = EC(**{k: float(v) for k, v in vals.items()}).Cij
+        got, e = _call(lambda: EC(**{k: _wrap(np, forms.get(k, 'float'), v) for k, v in vals.items()}).Cij)
+        print('replay scalar forms', forms, '->', e or float(np.abs(got - ref).max()))
+        if e is not None or not np.allclose(got, ref, rtol=1e-12, atol=0):
+            ctx.violate('input-form:replay', 'replayed case still fails', r)
+    elif op == 'isnormal':
+        ec = EC(Cij=np.array(r['Cij']))
+        a, rt = (1e-4, 1e-4) if r['atol'] is None else (r['atol'], r['rtol'])
+        nrm = ec.normalized_as(r['system']).Cij
+        want = bool(np.all(np.abs(ec.Cij - nrm) <= a + rt * np.abs(nrm)))
+        got = [bool(ec.is_normal(r['system'], atol=a, rtol=rt)), bool(ec.is_normal(r['system'], a, rt))]
+        print('replay is_normal', r['system'], a, rt, '->', got, 'entrywise:', want)
+        if got != [want, want]:
+            ctx.violate('is_normal:replay', 'replayed case still fails', r)
+    elif op in ('transformtol', 'axesform'):
+        ec = EC(Cij=np.array(r['Cij']))
+        R = np.array(r['axes'], dtype=float)
+        if op == 'axesform':
+            obj = dict(_array_forms(R, rng, True, bool(np.all(R == np.round(R))))).get(r['form'], R)
+            snap = _snapshot(obj)
+            a, e = _call(lambda: ec.transform(obj).Cij)
+            b = ec.transform(R.copy()).Cij
+            print('replay axes form', r['form'], '->', e or float(np.abs(a - b).max()), 'input modified:', _snapshot(obj) != snap)
+            if e is not None or not np.allclose(a, b, rtol=1e-12, atol=1e-13 * float(np.abs(b).max())) or _snapshot(obj) != snap:
+                ctx.violate('transform:replay', 'replayed case still fails', r)
+        else:
+            tol = r['tol']
+            t = 1e-8 if tol is None else float(tol)
+            U = R / np.linalg.norm(R, axis=1)[:, None]
+            W4 = _rot4([[Fraction(float(x)) for x in row] for row in U], _F(ec.Cijkl))
+            pr = ((0, 0), (1, 1), (2, 2), (1, 2), (0, 2), (0, 1))
+            W = np.array([[float(W4[27 * i + 9 * j + 3 * k + l]) for (k, l) in pr] for (i, j) in pr])
+            exp = W.copy()
+            exp[np.abs(W / W.max()) < t] = 0.0
+            exp[np.abs(exp / exp.max()) <= 1e-9] = 0.0
+            got, e = _call(lambda: (ec.transform(R) if tol is None else ec.transform(R, tol) if r['how'] == 'pos'
+                                    else ec.transform(R, tol=tol)).Cij)
+            print('replay transform tol', tol, r['how'], '->', e or float(np.abs(got - exp).max()))
+            if e is not None or not np.array_equal(got, exp):
+                ctx.violate('transform:replay', 'replayed case still fails', r)
+    elif op == 'inputform':
+        C = np.array(r['Cij'])
+        donor = EC(Cij=C.copy())
+        arr = getattr(donor, r['entry'])
+        obj = dict(_array_forms(arr, rng, True, bool(np.all(C == np.round(C))) and not r['entry'].startswith('S'))).get(r['form'], arr)
+        snap = _snapshot(obj)
+        ref = EC(**{r['entry']: np.array(obj, dtype='float64')})
+        ec, e = _call(lambda: EC(**{r['entry']: obj}))
+        bad = e is not None or _snapshot(obj) != snap
+        if e is None:
+            for rd in ('Cij', 'Sij', 'Cij9', 'Cijkl', 'Sijkl'):
+                a, b = _read(ec, rd), _read(ref, rd)
+                bad = bad or not _same_obs(a, b) or (isinstance(a, np.ndarray) and a.dtype != np.float64)
+        print('replay input form', r['entry'], r['form'], '->', e or ('differs' if bad else 'same'))
+        if bad:
+            ctx.violate('input-form:replay', 'replayed case still fails', r)
+    else:
+        # axes_check forms / data-model cases draw their variants from the generator: re-run the clause families
+        _search_audit(ctx, random.Random(ctx.seed * 7919 + 11), 1)
+
+
 def replay(ctx, payload):
     """re-run the stored case (or the whole search when the replay names no single input)."""
     np = _np()
@@ -2815,6 +3840,9 @@ def replay(ctx, payload):
                                 'replay', named, fixed=(r['setter'], r['pre'], r['post']))
         elif op == 'refusedset':
             _check_refused_set(ctx, random.Random(0), np.array(r['Cij']), {'Cij': r['Cij']}, fixed=r['setter'])
+        elif op in ('moduli', 'refusal', 'scalarform', 'isnormal', 'transformtol', 'axesform', 'inputform', 'axescheck',
+                    'model', 'model-old'):
+            _replay_audit(ctx, r)
         else:
             search(ctx, True)
     except Exception as e:  # noqa
